@@ -305,6 +305,10 @@ def oracle(c, r):
                             expect_in_tol.append(qi)
                     elif o["tol"] is not None:
                         expect_in_tol.append(qi)
+                elif nl == 0.0 and nr > 0 and ma > 0 and o["tol"] is None:
+                    # a query that IS its projection has no offset at all: it is within any positive angle of the normal
+                    yield ("mesh-angle-on-surface", what + ": the query lies exactly on the surface (zero offset) and is within the distance cap, but the angle-filtered query (limit %r) rejects it" % ma)
+                    break
                 elif o["tol"] is not None:
                     expect_in_tol.append(qi)
             elif o["tol"] is not None:
